@@ -1,23 +1,42 @@
 #!/venv/bin/python
 """Re-run all checks against every kept seeded change (/verif/seeded/*/patch.diff), update meta.json
-(detected_by / finding_keys) and print a markdown table for DESIGN.md section 9."""
+(detected_by / finding_keys) and write the markdown table seeded/TABLE.md (DESIGN.md section 9 reads it).
+usage: reseed_table.py [seed names ...]   (with names: only those are re-run; the table is rebuilt from all meta.json)"""
 import glob, json, os, re, subprocess, sys
 root = os.path.dirname(os.path.dirname(os.path.abspath(__file__)))
+only = sys.argv[1:]
 rows = []
 for d in sorted(glob.glob(os.path.join(root, "seeded", "C*-*"))):
     meta = json.load(open(os.path.join(d, "meta.json")))
-    t = subprocess.run([os.path.join(root, "tools/try_seed.py"), os.path.join(d, "patch.diff")], capture_output=True, text=True)
-    det = re.findall(r"^(C\d+) exit=1", t.stdout, re.M)
-    err = re.findall(r"^(C\d+) exit=2", t.stdout, re.M)
-    keys = [k.strip() for k in re.findall(r"^\s{5,}(C\d+-R[^\n]*)$", t.stdout, re.M)]
-    meta["detected_by"], meta["analysis_errors"], meta["finding_keys"] = det, err, keys[:8]
-    json.dump(meta, open(os.path.join(d, "meta.json"), "w"), indent=1)
-    rules = sorted({k.split("|")[0] for k in keys})
-    stat = subprocess.run("grep -E '^\\+\\+\\+ ' %s | sed 's#+++ b/src/clikit/##' | tr '\\n' ' '" % os.path.join(d, "patch.diff"), shell=True, capture_output=True, text=True).stdout.strip()
-    rows.append((os.path.basename(d), meta["property"], stat, ", ".join(rules) if rules else ("ANALYSIS-ERROR " + ",".join(err) if err else "-"), "yes" if det else "no"))
-    print(os.path.basename(d), "DETECTED" if det else "missed", rules, flush=True)
-out = "| seed | property | file changed | rule(s) that report it | detected |\n|------|----------|--------------|------------------------|----------|\n"
-for r in rows:
-    out += "| %s | %s | %s | %s | %s |\n" % r
-open(os.path.join(root, "seeded", "TABLE.md"), "w").write(out)
-print("detected %d / %d" % (sum(1 for r in rows if r[4] == "yes"), len(rows)))
+    if not only or os.path.basename(d) in only:
+        t = subprocess.run([os.path.join(root, "tools/try_seed.py"), os.path.join(d, "patch.diff")], capture_output=True, text=True)
+        det = re.findall(r"^(C\d+) exit=1", t.stdout, re.M)
+        err = re.findall(r"^(C\d+) exit=2", t.stdout, re.M)
+        keys = [k.strip() for k in re.findall(r"^\s{5,}(C\d+-R[^\n]*)$", t.stdout, re.M)]
+        meta["detected_by"], meta["analysis_errors"], meta["finding_keys"] = det, err, keys[:8]
+        meta["finding_rules"] = sorted({k.split("|")[0] for k in keys})
+        json.dump(meta, open(os.path.join(d, "meta.json"), "w"), indent=1)
+        print(os.path.basename(d), "DETECTED" if det else "missed", meta["finding_rules"], flush=True)
+        rules = meta["finding_rules"]
+        stat = subprocess.run("grep -E '^\\+\\+\\+ ' %s | sed 's#+++ b/src/clikit/##' | tr '\\n' ' '" % os.path.join(d, "patch.diff"), shell=True, capture_output=True, text=True).stdout.strip()
+        rows.append((os.path.basename(d), meta["property"], stat, ", ".join(rules) if rules else ("ANALYSIS-ERROR " + ",".join(err) if err else "-"), "yes" if det else "no"))
+tbl = os.path.join(root, "seeded", "TABLE.md")
+head = "| seed | property | file changed | rule(s) that report it | detected |\n|------|----------|--------------|------------------------|----------|\n"
+if only and os.path.exists(tbl):
+    # replace the rows of the seeds that were re-run, keep the others as the last full run wrote them
+    new_rows = {r[0]: "| %s | %s | %s | %s | %s |" % r for r in rows}
+    lines = open(tbl).read().rstrip("\n").split("\n")
+    out_lines = []
+    for ln in lines:
+        m = re.match(r"\| (C\d+-\d+) \|", ln)
+        out_lines.append(new_rows.pop(m.group(1)) if m and m.group(1) in new_rows else ln)
+    out_lines += list(new_rows.values())
+    open(tbl, "w").write("\n".join(out_lines) + "\n")
+else:
+    out = head
+    for r in rows:
+        out += "| %s | %s | %s | %s | %s |\n" % r
+    open(tbl, "w").write(out)
+n_yes = sum(1 for ln in open(tbl) if ln.rstrip().endswith("| yes |"))
+n_all = sum(1 for ln in open(tbl) if re.match(r"\| C\d+-\d+ \|", ln))
+print("detected %d / %d" % (n_yes, n_all))
